@@ -163,6 +163,16 @@ def run_case(case, ctx):
     if not S or not T:
         ve, _ = call_warn(ctx, persim.bottleneck, np.array(S, dtype=float), np.array(T, dtype=float))
         check_value(ctx, "value-container", ve, ref, 0.0, "np.array([]) for the empty diagram", S, T)
+    # --- Mx(>=2) input: columns beyond (birth, death) are annotations (dimension, feature id ...); pairing two
+    # points costs the L-infinity distance of the POINTS (b, d)
+    if S or T:
+        S3c = np.hstack([farr(S), np.arange(len(S), dtype=float).reshape(-1, 1) * 7.0 + 1.0]) if S else np.zeros((0, 3))
+        T3c = np.hstack([farr(T), 50.0 - np.arange(len(T), dtype=float).reshape(-1, 1) * 3.0]) if T else np.zeros((0, 3))
+        vx, _ = call_warn(ctx, persim.bottleneck, S3c, T3c)
+        check_value(ctx, "value-extra-columns", vx, ref, 0.0, "Mx3 arrays with an annotation column", S3c.tolist(), T3c.tolist())
+        if S and T:
+            vx, _ = call_warn(ctx, persim.bottleneck, S3c, farr(T))
+            check_value(ctx, "value-extra-columns", vx, ref, 0.0, "Mx3 array against an Nx2 array", S3c.tolist(), T)
     # --- points with infinite death are dropped, with a warning, without influence
     for addS, addT in (([[0.0, INF]], []), ([], [[1.0, INF], [5.0, INF]]), ([[2.0, INF]], [[0.0, INF]])):
         S3 = addS + [list(map(float, p)) for p in S]
